@@ -46,6 +46,7 @@ func powRecord(n, m int) {
 		if err != nil {
 			vio.Fatal("observe: %v", err)
 		}
+		w.release() // sequential driver: the sandbox is taken again by the next scenario
 		vio.Emit(event{Op: "reset", Ids: []int{}, Known: []int{}, Obs: o0})
 		stored := map[int]bool{0: true}
 		pending := func() []int { // not stored, parent stored
